@@ -41,6 +41,7 @@ func run(e *harness.Env) {
 	e.Rule = fmt.Sprintf("full product per sub-space (no sampling). Texts = every sequence of 0..n segments over {ASCII word, 120-byte token, CJK run, spaced CJK words, emoji, base+2 combining marks, "+
 		"sentences of 60/150/200/250 bytes ending in '. ', two multi-byte-script sentences (Greek/Cyrillic/accented Latin/CJK) ending in '. ', '? ', newline, blank line, NBSP, NEL, dotted abbreviation, decimal number} with one repetition factor r in {1,8,40} for the repeatable segments. "+
 		"split (n<=%d%s): texts x unit{characters,tokens,words,sentences,paragraphs} x limit{1,2,5,50,200,800} (sentences/paragraphs only 1,2,5 and words up to 200: larger ones cannot engage on texts of this size) x TokensPerChar{0.25,1,0 (token unit only)}; "+
+		"edge: {words, lines, sentences, unspaced emoji, unspaced CJK} x one character of {Cf: BOM, ZWSP, ZWJ, soft hyphen, RLM; Zs: NBSP, ideographic space; Mn: combining acute, VS16; Cc: NEL, unit separator} placed at {text start, text end, before every break opportunity, after every break opportunity} x the size grid (limits<=200) through SplitToSize, ChunkDocumentWithConfig and the layout Chunker (only white space may vanish at piece edges); "+
 		"point (n<=%d): FindSplitPointAt and FindSplitPoint on the same grid; bnd: sequences of <=%d paragraph blocks out of 14 (incl. multi-byte sentences and blocks with stray leading/trailing blanks) with BoundaryDetector boundaries x SplitAtSemanticBoundaries x the grid; "+
 		"ovl (n<=%d; quick additionally every 3-segment sequence over {2 multi-byte sentences, ASCII sentence, spaced CJK, emoji, word}): texts x strategy{none,character,sentence,paragraph} x size{1,2,10,100} x PreserveWords x MaxOverlap{0,50,300,500} x MinOverlap{0,20}; "+
 		"ovlcut: {1-,2-,3-,4-byte character runs, mixed} x {unspaced, spaced, sentences} x 0..3 leading ASCII bytes (every alignment of the cut byte inside a character) x strategy{character,sentence,paragraph} x PreserveWords x MaxOverlap{50,51,100,500} x Size{Max-3..Max+2,Max+50,10 | 1,2 sentences/paragraphs}, through GenerateOverlap and ApplyOverlapToChunks; "+
@@ -65,6 +66,9 @@ func run(e *harness.Env) {
 	}
 	if want("split") {
 		splitSpace(e, L)
+	}
+	if want("edge") {
+		edgeSpace(e)
 	}
 	if want("point") {
 		pointSpace(e, L-1)
